@@ -300,10 +300,82 @@ fn scaling_case(src: &mut Src, ctx: &mut Ctx) -> Result<(), String> {
     Ok(())
 }
 
+// ---- time scaling: CPU time for an input four times as long -----------------------------------------------------
+fn time_text(shape: u64, n: usize) -> String {
+    let mut s = String::from("VERSION 5.8 ;\n");
+    match shape {
+        0 => {
+            for i in 0..n / 8 {
+                s.push_str(&format!("MACRO m{} CLASS CORE ; SIZE 1.5 BY 2.5 ; END m{}\n", i, i));
+            }
+        }
+        1 => {
+            s.push_str("MACRO big\n");
+            for i in 0..n / 12 {
+                s.push_str(&format!("PIN p{} DIRECTION INPUT ; PORT LAYER met1 ; RECT 0 0 1 1 ; END END p{}\n", i, i));
+            }
+            s.push_str("END big\n");
+        }
+        2 => {
+            s.push_str("MACRO geo OBS LAYER met1 ;\n");
+            for i in 0..n / 6 {
+                s.push_str(&format!("RECT 0 {} 1 {} ;\n", i, i + 1));
+            }
+            s.push_str("END END geo\n");
+        }
+        3 => {
+            s.push_str("MACRO prp PROPERTY");
+            for i in 0..n / 3 {
+                s.push_str(&format!(" k{} {}", i, i));
+            }
+            s.push_str(" ;\nEND prp\n");
+        }
+        4 => {
+            for i in 0..n / 8 {
+                s.push_str(&format!("SITE s{} CLASS CORE ; SIZE 1 BY 2 ; END s{}\n", i, i));
+            }
+        }
+        _ => {
+            // long tokens: a long comment, a long name, a long polygon
+            s.push_str("# ");
+            s.push_str(&"x".repeat(n));
+            s.push_str("\nMACRO ");
+            let name = "n".repeat(n);
+            s.push_str(&name);
+            s.push_str(" OBS LAYER met1 ; POLYGON");
+            for i in 0..n / 4 {
+                s.push_str(&format!(" {} {}", i, i % 7));
+            }
+            s.push_str(" ; END END ");
+            s.push_str(&name);
+            s.push('\n');
+        }
+    }
+    s.push_str("END LIBRARY\n");
+    s
+}
+fn time_case(src: &mut Src, ctx: &mut Ctx) -> Result<(), String> {
+    let shape = src.u64() % 6;
+    let n = 40_000usize;
+    let (a, b) = (time_text(shape, n), time_text(shape, 4 * n));
+    ctx.nontrivial(hash_of(&shape));
+    let what = ["many macros", "many pins in one macro", "many rectangles in one block", "many property pairs in one statement", "many sites", "long comment, long name, long polygon"][shape as usize];
+    let (pa, pb) = (crate::engine::child::scratch_path("c11.time.a.lef"), crate::engine::child::scratch_path("c11.time.b.lef"));
+    std::fs::write(&pa, &a).map_err(|e| e.to_string())?;
+    std::fs::write(&pb, &b).map_err(|e| e.to_string())?;
+    let r = alloc::quadruples_badly(|big| LefLibrary::open(if big { &pb } else { &pa }).is_ok());
+    let _ = std::fs::remove_file(&pa);
+    let _ = std::fs::remove_file(&pb);
+    let r = r.map_err(|e| format!("reading time grows faster than the input ({}: {} and {} bytes): {}", what, a.len(), b.len(), e))?;
+    ctx.label(&format!("time scaling, {}: x{:.0} CPU time for x4 input", what, (r.1 / r.0.max(1e-6)).round()));
+    ctx.sample("time scaling", || format!("{}: {} bytes in {:.1} ms, {} bytes in {:.1} ms of CPU time", what, a.len(), r.0 * 1e3, b.len(), r.1 * 1e3));
+    Ok(())
+}
+
 fn run(run: &mut Run) {
     engine::journal::set_hang_ms(30_000);
     run.rule("Base texts: 40 LEF texts rendered from generated libraries (half with lexical variation, a quarter with non-ASCII comments) + the repository's macro.lef. (i) every prefix at every character boundary; (ii) every single-token fault at every token (delete, duplicate, swap, replace by each of 27 keywords/numbers (incl. the extremes of the 96-bit decimal type)/punctuation/unterminated string); (ii-b) floods: each replacement token and 21 short phrases repeated 50 000 times at four places of a base text, read on a 2 MB stack; (iii) proptest-driven insertion of multi-byte, odd-whitespace and delimiter characters anywhere; (iv) token soup of keywords, numbers, names and arbitrary Unicode scalars; allocation scaling. Oracle: LefLibrary::open returns (panics caught; aborts and hangs caught by the supervising process with a CPU limit), also on the error-report path; an Ok library can be written and re-read without a crash. Non-trivial = faulted text differs from its base; distinct by hash of the text.");
-    run.assume("termination = returns before the hang watchdog (30 s in flight) / 20 s CPU in isolation; linear time approximated by allocation volume at most doubling when the input doubles");
+    run.assume("termination = returns before the hang watchdog (30 s in flight) / 20 s CPU in isolation; linear time checked as allocation volume at most doubling when the input doubles and best-of-three thread CPU time growing at most 8-fold (+20 ms) when the input quadruples, on six text shapes");
     run.min_nontrivial = 1000;
     run.enumerate("prefixes", *prefix_table().last().unwrap(), &prefix_case);
     run.enumerate("token-faults", *fault_table().last().unwrap(), &token_fault_case);
@@ -311,6 +383,7 @@ fn run(run: &mut Run) {
     run.explore("odd-characters", run.tier.pick(150_000, 1_500_000), 16, &insertion_case);
     run.explore("token-soup", run.tier.pick(150_000, 1_500_000), 400, &soup_case);
     run.enumerate("alloc-scaling", run.tier.pick(4, 6), &scaling_case);
+    run.enumerate("time-scaling", 6, &time_case);
 }
 fn case(sub: &str) -> Option<Box<CaseFn<'static>>> {
     match sub {
@@ -320,6 +393,7 @@ fn case(sub: &str) -> Option<Box<CaseFn<'static>>> {
         "odd-characters" => Some(Box::new(insertion_case)),
         "token-soup" => Some(Box::new(soup_case)),
         "alloc-scaling" => Some(Box::new(scaling_case)),
+        "time-scaling" => Some(Box::new(time_case)),
         "raw-file" => Some(Box::new(|src: &mut Src, ctx: &mut Ctx| {
             let mut bytes = vec![];
             while !src.exhausted() {
